@@ -10,9 +10,19 @@ from pyvc.spec import Contract
 
 M = "sqllineage.config._SQLLineageConfigLoader."
 OV = "self._thread_config.get(tid, {}).get(K)"
-OTHERS_CFG = "forall(lambda u: implies(u != tid, (u in self._thread_config) == old(u in self._thread_config) and self._thread_config.get(u) == old(self._thread_config.get(u))), u='int')"
-OTHERS_CTX = "forall(lambda u: implies(u != tid, (u in self._thread_in_context_manager) == old(u in self._thread_in_context_manager)), u='int')"
+# GUARANTEE of every simple statement (prev() = the state just before the statement): no other thread's slot / mark changes
+OTHERS_CFG = "forall(lambda u: implies(u != tid, (u in self._thread_config) == prev(u in self._thread_config) and self._thread_config.get(u) == prev(self._thread_config.get(u))), u='int')"
+OTHERS_CTX = "forall(lambda u: implies(u != tid, (u in self._thread_in_context_manager) == prev(u in self._thread_in_context_manager)), u='int')"
 STABLE = {"others_cfg": OTHERS_CFG, "others_ctx": OTHERS_CTX}
+# RELY: between any two statements other threads may do anything to THEIR slots; ours is left alone (their guarantee)
+INTERFERE = ["self._thread_config", "self._thread_in_context_manager"]
+RELY = {
+    "own_cfg_slot": "(tid in self._thread_config) == prev(tid in self._thread_config) and self._thread_config.get(tid) == prev(self._thread_config.get(tid))",
+    "own_ctx_mark": "(tid in self._thread_in_context_manager) == prev(tid in self._thread_in_context_manager)",
+}
+RG = dict(stable=STABLE, interfere=INTERFERE, rely=RELY)
+OWN_CTX_SAME = "(tid in self._thread_in_context_manager) == old(tid in self._thread_in_context_manager)"
+OWN_CFG_SAME = "(tid in self._thread_config) == old(tid in self._thread_config) and self._thread_config.get(tid) == old(self._thread_config.get(tid))"
 FIELDS = {
     ("_SQLLineageConfigLoader", "_thread_config"): "dict[int, dict[str, Any]]",
     ("_SQLLineageConfigLoader", "_thread_in_context_manager"): "set[int]",
@@ -51,14 +61,14 @@ CONTRACTS = [
         },
         raises={"*": {"when": "old(self._thread_config.get(tid, {}).get(item)) is None", "ensures": {}}},
         modifies=[],
-        stable=STABLE,
+        **RG,
         canary={"result_is_none": "result is None"},
     ),
     Contract(
         M + "__setattr__",
         props=["C15"],
         lets={"tid": "self.get_ident()"},
-        raises={"ConfigException": {"when": "key in self.config", "exact": True, "ensures": {"nothing_changes": "unchanged('_thread_config') and unchanged('_thread_in_context_manager')"}}},
+        raises={"ConfigException": {"when": "key in self.config", "exact": True, "ensures": {"nothing_changes": OWN_CFG_SAME + " and " + OWN_CTX_SAME}}},
         ensures={"only_non_config_names": "key not in self.config"},
         modifies=["self._thread_config", "self._thread_in_context_manager"],
         at_calls=False,
@@ -73,14 +83,14 @@ CONTRACTS = [
                 "when": "exists(lambda k: k in kwargs and k not in self.config, k='str') or tid in old(self._thread_in_context_manager)",
                 "ensures": {
                     "rejected_is_noop": f"forall(lambda K: {OV} == old({OV}), K='str')",
-                    "ctx_same": "self._thread_in_context_manager == old(self._thread_in_context_manager)",
+                    "ctx_same": OWN_CTX_SAME,
                 },
             },
             "*": {
                 "when": None,
                 "ensures": {
                     "failed_is_noop": f"forall(lambda K: {OV} == old({OV}), K='str')",
-                    "ctx_same": "self._thread_in_context_manager == old(self._thread_in_context_manager)",
+                    "ctx_same": OWN_CTX_SAME,
                 },
             },
         },
@@ -90,15 +100,16 @@ CONTRACTS = [
             "returns_self": "result is self",
             "stored": f"forall(lambda K: implies(K in kwargs, {OV} == old(self.parse_value(kwargs[K], self.config[K][0]))), K='str')",
             "kept": f"forall(lambda K: implies(K not in kwargs, {OV} == old({OV})), K='str')",
-            "ctx_same": "self._thread_in_context_manager == old(self._thread_in_context_manager)",
+            "ctx_same": OWN_CTX_SAME,
         },
         modifies=["self._thread_config"],
         returns="_SQLLineageConfigLoader",
-        stable=STABLE,
+        **RG,
         loops={
             0: LoopSpec(
                 inv={
-                    "nothing_stored_yet": "unchanged('_thread_config')",
+                    "nothing_stored_yet": OWN_CFG_SAME,
+                    "own_scope_mark_kept": OWN_CTX_SAME,
                     "done_valid": "forall(lambda K: implies(K in _done, K in self.config), K='str')",
                     "parsed_is_done": "forall(lambda K: (K in parsed) == (K in _done), K='str')",
                     "parsed_values": "forall(lambda K: implies(K in _done, parsed[K] == old(self.parse_value(kwargs[K], self.config[K][0]))), K='str')",
@@ -116,16 +127,15 @@ CONTRACTS = [
             "ConfigException": {
                 "when": "tid in old(self._thread_in_context_manager)",
                 "exact": True,
-                "ensures": {"rejected_is_noop": "unchanged('_thread_config') and unchanged('_thread_in_context_manager')"},
+                "ensures": {"rejected_is_noop": OWN_CFG_SAME + " and " + OWN_CTX_SAME},
             }
         },
         ensures={
             "marks_scope": "tid in self._thread_in_context_manager",
-            "others_ctx": OTHERS_CTX,
-            "cfg_same": "unchanged('_thread_config')",
+            "cfg_same": OWN_CFG_SAME,
         },
         modifies=["self._thread_in_context_manager"],
-        stable=STABLE,
+        **RG,
         canary={"already_inside": "tid in old(self._thread_in_context_manager)"},
     ),
     Contract(
@@ -135,12 +145,10 @@ CONTRACTS = [
         ensures={
             "overrides_cleared": "tid not in self._thread_config",
             "scope_closed": "tid not in self._thread_in_context_manager",
-            "others_cfg": OTHERS_CFG,
-            "others_ctx": OTHERS_CTX,
             "does_not_swallow": "not result",
         },
         modifies=["self._thread_config", "self._thread_in_context_manager"],
-        stable=STABLE,
+        **RG,
         canary={"scope_still_open": "tid in self._thread_in_context_manager"},
     ),
 ]
